@@ -7,6 +7,39 @@ import identgen
 from check_c01 import HEADER
 
 
+def deep_canon(e, n, stack=(), memo=None):
+    """the exported graph unfolded from node n into a tree (a reference back into the stack becomes its relative
+    position, as the hash does); caches and seal flags left out, fields in name order.  Two nodes with the same
+    unfolding have the same signature, whatever the indices of the nodes they are built from."""
+    memo = {} if memo is None else memo
+    key = (n, stack)
+    if key in memo:
+        return memo[key]
+    if n >= len(e["nodes"]):
+        return ["dangling", n]
+    if n in stack:
+        return ["cycle", len(stack) - stack.index(n)]
+    x = e["nodes"][n]
+    st = stack + (n,)
+
+    def cv(v):
+        if v["t"] == "ref":
+            return deep_canon(e, v["n"], st, memo)
+        if v["t"] == "list":
+            return ["list", [cv(y) for y in v["v"]]]
+        if v["t"] == "dict":
+            return ["dict", sorted(([k, cv(y)] for k, y in v["v"]), key=lambda kv: kv[0])]
+        return v
+    cls = e["classes"][x["cls"]]
+    out = [json.dumps(cls, sort_keys=True), x.get("meta"), x.get("selftask"),
+           (deep_canon(e, x["task"], st, memo) if x.get("task") is not None and x["task"] != n else None),
+           sorted(([k, cv(v)] for k, v in x["fields"]), key=lambda kv: kv[0]),
+           sorted(json.dumps(deep_canon(e, q, st, memo), sort_keys=True) for q in x["pre"]),
+           [deep_canon(e, q, st, memo) for q in x["init"]], x.get("tags")]
+    memo[key] = out
+    return out
+
+
 def run(c: Check):
     c.rule = ("random configuration graphs on the claimed domain (no control characters, dicts nested <= 2), each paired "
               "with the graph obtained by one small structural edit that changes the canonical signature of one node "
@@ -126,6 +159,11 @@ def run(c: Check):
             if p["a"]["nodes"][t]["cls"] in ("TaskSelf", "TaskSelfG") and p["node"] in reach_all(p["exp_a"], t) \
                     and (identgen.remarked(p["a"]) or identgen.remarked(p["b"])):
                 p["kind"] = "upstream-task" + identgen.SELFMARK
+        # guard: the two graphs unfold to the same tree (the edit swapped two configurations that are EQUAL in every
+        # respect, or only changed the order in which the constructor received its values): same signature
+        elif deep_canon(p["exp_a"], p["node"]) == deep_canon(p["exp_b"], p["node"]):
+            c.count("edit-had-no-effect")
+            continue
         # guard: the edit may have been neutralised by the build (e.g. value coerced); only count real changes
         elif p["kind"] != "cycle-target" and p["exp_a"]["nodes"][p["node"]] == p["exp_b"]["nodes"][p["node"]] and p["which"] == "raw" \
                 and p["exp_a"]["classes"][p["exp_a"]["nodes"][p["node"]]["cls"]] == p["exp_b"]["classes"][p["exp_b"]["nodes"][p["node"]]["cls"]]:
